@@ -364,14 +364,85 @@ func sortOf(w int) string {
 }
 
 // Printer with sharing: emits define-fun for every non-leaf node once per session.
+type mulApp struct{ a, b, name string }
+
 type Printer struct {
 	defined map[int]string
+	bodies  map[string]string // structural sharing: body text -> name
 	vars    map[string]bool
 	out     *strings.Builder
+	ufMul   bool // product abstraction: symbolic*symbolic Int products are an uninterpreted function plus valid axioms
+	muls    []mulApp
+	ufDecl  bool
+	ufDivDecl bool
 }
 
 func NewPrinter() *Printer {
-	return &Printer{defined: map[int]string{}, vars: map[string]bool{}, out: &strings.Builder{}}
+	return &Printer{defined: map[int]string{}, bodies: map[string]string{}, vars: map[string]bool{}, out: &strings.Builder{}}
+}
+
+// mulAxioms emits valid facts about the new product p = a*b (sign, unit, zero, monotonicity against
+// every earlier product, distributivity over earlier products with a syntactically common factor).
+func (p *Printer) mulAxioms(n mulApp) {
+	w := func(f string, a ...interface{}) { fmt.Fprintf(p.out, "(assert "+f+")\n", a...) }
+	w("(=> (and (>= %s 0) (>= %s 0)) (>= %s 0))", n.a, n.b, n.name)
+	w("(=> (or (= %s 0) (= %s 0)) (= %s 0))", n.a, n.b, n.name)
+	w("(=> (= %s 1) (= %s %s))", n.a, n.name, n.b)
+	w("(=> (= %s 1) (= %s %s))", n.b, n.name, n.a)
+	w("(=> (and (>= %s 1) (>= %s 1)) (and (>= %s %s) (>= %s %s)))", n.a, n.b, n.name, n.a, n.name, n.b)
+	for _, q := range p.muls {
+		for _, pr := range [][2]string{{q.a, q.b}, {q.b, q.a}} {
+			c, d := pr[0], pr[1]
+			w("(=> (and (>= %s 0) (>= %s 0) (<= %s %s) (<= %s %s)) (<= %s %s))", n.a, n.b, n.a, c, n.b, d, n.name, q.name)
+			w("(=> (and (>= %s 0) (>= %s 0) (<= %s %s) (<= %s %s)) (<= %s %s))", c, d, c, n.a, d, n.b, q.name, n.name)
+			w("(=> (and (= %s %s) (= %s %s)) (= %s %s))", n.a, c, n.b, d, n.name, q.name)
+			// strict monotonicity / cancellation with an equal positive factor
+			w("(=> (and (= %s %s) (>= %s 1) (< %s %s)) (<= (+ %s %s) %s))", n.a, c, n.a, n.b, d, n.name, n.a, q.name)
+			w("(=> (and (= %s %s) (>= %s 1) (< %s %s)) (<= (+ %s %s) %s))", n.a, c, n.a, d, n.b, q.name, n.a, n.name)
+			w("(=> (and (= %s %s) (>= %s 1) (< %s %s)) (<= (+ %s %s) %s))", n.b, d, n.b, n.a, c, n.name, n.b, q.name)
+			w("(=> (and (= %s %s) (>= %s 1) (< %s %s)) (<= (+ %s %s) %s))", n.b, d, n.b, c, n.a, q.name, n.b, n.name)
+		}
+	}
+	// distributivity with a common (syntactically equal) factor
+	other := func(m mulApp, c string) (string, bool) {
+		if m.a == c {
+			return m.b, true
+		}
+		if m.b == c {
+			return m.a, true
+		}
+		return "", false
+	}
+	all := append(append([]mulApp{}, p.muls...), n)
+	for _, c := range []string{n.a, n.b} {
+		var grp []mulApp
+		var oth []string
+		for _, m := range all {
+			if o, ok := other(m, c); ok {
+				grp = append(grp, m)
+				oth = append(oth, o)
+			}
+		}
+		if len(grp) > 7 {
+			continue
+		}
+		for i := range grp {
+			for j := range grp {
+				for k := range grp {
+					if i == j || i == k || j > k {
+						continue
+					}
+					if grp[i].name != n.name && grp[j].name != n.name && grp[k].name != n.name {
+						continue
+					}
+					w("(=> (= %s (+ %s %s)) (= %s (+ %s %s)))", oth[i], oth[j], oth[k], grp[i].name, grp[j].name, grp[k].name)
+				}
+			}
+		}
+		if n.a == n.b {
+			break
+		}
+	}
 }
 
 func (p *Printer) ref(t *Term) string {
@@ -431,9 +502,72 @@ func (p *Printer) ref(t *Term) string {
 	default:
 		body = "(" + t.Op + " " + strings.Join(args, " ") + ")"
 	}
+	isUF := false
+	if p.ufMul && t.Op == "*" && t.W == -1 && !t.Args[0].IsConst() && !t.Args[1].IsConst() {
+		if args[0] > args[1] {
+			args[0], args[1] = args[1], args[0]
+		}
+		if !p.ufDecl {
+			p.ufDecl = true
+			fmt.Fprintf(p.out, "(declare-fun vmul (Int Int) Int)\n")
+		}
+		body = "(vmul " + args[0] + " " + args[1] + ")"
+		isUF = true
+	}
+	isUFDiv := false
+	if p.ufMul && t.Op == "div" && t.W == -1 && !t.Args[1].IsConst() {
+		if !p.ufDecl {
+			p.ufDecl = true
+			fmt.Fprintf(p.out, "(declare-fun vmul (Int Int) Int)\n")
+		}
+		if !p.ufDivDecl {
+			p.ufDivDecl = true
+			fmt.Fprintf(p.out, "(declare-fun vdiv (Int Int) Int)\n")
+		}
+		body = "(vdiv " + args[0] + " " + args[1] + ")"
+		isUFDiv = true
+	}
+	if n, ok := p.bodies[body]; ok {
+		p.defined[t.id] = n
+		return n
+	}
 	name := fmt.Sprintf("t!%d", t.id)
 	fmt.Fprintf(p.out, "(define-fun %s () %s %s)\n", name, sortOf(t.W), body)
 	p.defined[t.id] = name
+	p.bodies[body] = name
+	if t.Op == "int2bv" {
+		// round-trip fact (valid): in-range integers survive the conversion
+		fmt.Fprintf(p.out, "(assert (=> (and (>= %s 0) (< %s %s)) (= (bv2nat %s) %s)))\n", args[0], args[0], new(big.Int).Lsh(big.NewInt(1), uint(t.W)).String(), name, args[0])
+	}
+	if t.Op == "bv2nat" {
+		// range fact (valid): helps the arithmetic solver, which otherwise has to derive it from the bit-vector side
+		fmt.Fprintf(p.out, "(assert (and (>= %s 0) (< %s %s)))\n", name, name, new(big.Int).Lsh(big.NewInt(1), uint(t.Args[0].W)).String())
+	}
+	if isUFDiv {
+		// q = a div b with b > 0 (Euclidean): b*q <= a < b*q + b ; the product b*q is itself abstracted
+		a, b := args[0], args[1]
+		x, y := b, name
+		if x > y {
+			x, y = y, x
+		}
+		pb := "(vmul " + x + " " + y + ")"
+		pn, ok := p.bodies[pb]
+		if !ok {
+			pn = name + "!p"
+			fmt.Fprintf(p.out, "(define-fun %s () Int %s)\n", pn, pb)
+			p.bodies[pb] = pn
+			m := mulApp{x, y, pn}
+			p.mulAxioms(m)
+			p.muls = append(p.muls, m)
+		}
+		fmt.Fprintf(p.out, "(assert (=> (> %s 0) (and (<= %s %s) (< %s (+ %s %s)))))\n", b, pn, a, a, pn, b)
+		fmt.Fprintf(p.out, "(assert (=> (and (> %s 0) (>= %s 0)) (and (>= %s 0) (<= %s %s))))\n", b, a, name, name, a)
+	}
+	if isUF {
+		m := mulApp{args[0], args[1], name}
+		p.mulAxioms(m)
+		p.muls = append(p.muls, m)
+	}
 	return name
 }
 
